@@ -61,3 +61,85 @@ def run_C14(ctx):
 
 def run_C15(ctx):
     return run_call(ctx, True)
+
+
+# ---------------------------------------------------------------------------------------------------------
+# C13: concurrent calls on shared clients and handlers
+# ---------------------------------------------------------------------------------------------------------
+def run_C13(ctx):
+    import os
+    import subprocess
+    from . import p_wire, p_serve, p_frames
+    quick = ctx.tier == "quick"
+    core.design_check(ctx, "MC_Pools", "MC_Pools.cfg", workers=2)
+    core.design_check(ctx, "MC_Wire", "MC_Wire_Q.cfg")
+    # (1) many goroutines, pairwise-distinct payloads, one client and one handler per configuration
+    scen = []
+    for g in ("C01", "C02", "C08", "C11"):
+        sc = core.generate(ctx, "MC_Wire", "Gen_Wire_%s.cfg" % g, tag="gen" + g)["scenarios"]
+        scen += core.sample(ctx.rng, sc, 2500 if quick else 40000)
+    conc = []
+    for s in scen:
+        s = dict(s, shared=True, transport="mem")
+        if s["kind"] == "bidi" and s["out"]["kind"] == "ok" and len(s["req"]) > 0 and ctx.rng.random() < 0.7:
+            # sender and receiver goroutine on one stream: the handler echoes
+            s = dict(s, echo=True, resp=[dict(m) for m in s["req"]])
+        conc.append(s)
+    ctx.rng.shuffle(conc)
+    pool1 = ctx.path("pool-e2e.ndjson")
+    tf = core.run_runner(ctx, "e2e", conc, tag="conc", args=["-workers", "64", "-pooltrace", pool1])
+    acc, rej = core.validate(ctx, "TraceWire", tf, tag="conc", sigfn=p_wire.sig("C13"))
+    core.judge(ctx, rej)
+    acc, rej = core.validate(ctx, "TracePools", pool1, tag="pool1", shards=8, sigfn=pool_sig)
+    core.judge(ctx, rej)
+    # (2) error paths under concurrency: undecodable / corrupt / oversize input interleaved with valid calls
+    bad = [s for s in core.generate(ctx, "MC_Serve", "Gen_Serve.cfg", tag="genserve")["scenarios"]
+           if s["method"] == "POST" and s["theader"] == "none"]
+    bad = core.sample(ctx.rng, bad, 3000 if quick else 20000)
+    pool2 = ctx.path("pool-req.ndjson")
+    tf = core.run_runner(ctx, "req", bad, tag="concreq", args=["-workers", "64", "-pooltrace", pool2])
+    acc, rej = core.validate(ctx, "TraceServe", tf, tag="concreq", sigfn=p_serve.sig("C13"))
+    core.judge(ctx, rej)
+    acc, rej = core.validate(ctx, "TracePools", pool2, tag="pool2", shards=4, sigfn=pool_sig)
+    core.judge(ctx, rej)
+    fr = [p_frames.flat(r, [], False) for r in core.generate(ctx, "Gen_Frames", "Gen_Frames_A.cfg", tag="genA")["scenarios"]
+          if r["sc"]["limit"] == 0]
+    fr = core.sample(ctx.rng, fr, 3000 if quick else 20000)
+    pool3 = ctx.path("pool-frames.ndjson")
+    tf = core.run_runner(ctx, "frames", fr, tag="concfr", args=["-workers", "64", "-pooltrace", pool3])
+    acc, rej = core.validate(ctx, "TraceFrames", tf, tag="concfr", sigfn=p_frames.sig("C13"))
+    core.judge(ctx, rej)
+    acc, rej = core.validate(ctx, "TracePools", pool3, tag="pool3", shards=4, sigfn=pool_sig)
+    core.judge(ctx, rej)
+    # (3) the same traffic under the race detector (auxiliary monitor: data races are below the model's grain)
+    racelog = ctx.path("race")
+    sub = core.sample(ctx.rng, conc, 1500 if quick else 15000)
+    tf = core.run_runner(ctx, "e2e", sub, tag="race", race=True, args=["-workers", "32"],
+                         env=dict(GORACE="halt_on_error=0 exitcode=0 log_path=%s" % racelog))
+    reports = []
+    for fn in os.listdir(ctx.dir):
+        if fn.startswith("race."):
+            txt = open(os.path.join(ctx.dir, fn)).read()
+            reports += [r for r in txt.split("==================") if "DATA RACE" in r]
+    lib = [r for r in reports if "/bufbuild/connect-go." in r or core.REPO + "/" in r]
+    ctx.notes["race_detector"] = dict(scenarios=len(sub), reports=len(reports), in_library=len(lib))
+    if lib:
+        ctx.violations.append(dict(trace=[dict(ev="reset", sc=dict(kind="race"), scn=dict(seed=ctx.seed))],
+                                   at=0, event=dict(ev="race"), sig="C13|data-race", module="race detector",
+                                   detail=lib[0][:6000]))
+    acc, rej = core.validate(ctx, "TraceWire", tf, tag="race", sigfn=p_wire.sig("C13"))
+    core.judge(ctx, rej)
+    return core.finish(ctx, rule=(
+        "scenarios of C01/C02/C08/C11 (TLC-generated) executed by 64 goroutines on ONE client and ONE handler per "
+        "configuration with pairwise-distinct payloads, bidi streams with a sending and a receiving goroutine; every "
+        "call's trace must be what Wire.tla computes for that call alone (foreign or stale bytes project to "
+        "'corrupt'); retained values are re-read at the end; buffer-pool Get/Put events (verif hooks, buffers "
+        "poisoned on Put) must be a behaviour of Pools.tla, also for error-path traffic; the same traffic under "
+        "the race detector"),
+        assumptions=["real goroutine schedules are perturbed by load, not enumerated",
+                     "the race detector is an auxiliary monitor: unsynchronised access is below the specification's grain"])
+
+
+def pool_sig(rj):
+    ev = rj["event"]
+    return "C13|pool|%s of buffer that is %s" % (ev.get("ev"), "already handed out" if ev.get("ev") == "get" else "already pooled")
